@@ -71,6 +71,10 @@ class Monitor:
 
         s = self.s
         if kind == "line-fail":
+            from ..harness import FAULT_CLASSES
+
+            # the first node's faults are TransportFailedError, the others' a plain TransportError (the contract)
+            s.transport.fault_class = FAULT_CLASSES["failed" if n == self.nodes[0] else "plain"]
             s.transport.fail_writes = 1
         out = s.line(R.enc(*f).rstrip("\n"))
         s.transport.fail_writes = 0
